@@ -205,7 +205,7 @@ def showNode (id : String) : String :=
 def b2s (b : Bool) : String := if b then "1" else "0"
 
 def sessStr (st : State) (s : Sess) : String :=
-  let nid := showNode (st.nodes.getD s.rnode default).id
+  let nid := showNode (st.nodes.getD s.rnode default).id ++ "@" ++ (st.nodes.getD s.rnode default).addr
   let pd := joinOr "," ((s.pdrs.mergeSort (fun a b => a.1 ≤ b.1)).map fun (id, us) =>
     s!"{id}/" ++ String.intercalate "+" ((sortNat us).map toString))
   let ids (l : List Nat) := joinOr "," ((sortNat l).map toString)
